@@ -536,6 +536,26 @@ theorem renamed_mem (keys : List String) (p : Nat) (hp : p < keys.length) (h2 : 
   simp only [show count keys[p] keys > 1 from h2, if_true]
   exact List.getElem?_eq_getElem _
 
+/-- the unique key of a position is a renamed one, or the position's own key, which then occurs once -/
+theorem uniq_at (keys : List String) (p : Nat) (x : String) (hp : (uniq keys)[p]? = some x) :
+    x ∈ renamed keys ∨ (keys[p]? = some x ∧ count x keys = 1) := by
+  have hlt : p < keys.length := by
+    by_cases h : p < keys.length
+    · exact h
+    · rw [List.getElem?_eq_none (by rw [uniq_length]; omega)] at hp; cases hp
+  have hk : keys[p]? = some keys[p] := List.getElem?_eq_getElem hlt
+  have hpos := count_pos_of_mem (List.mem_of_getElem? hk)
+  by_cases h1 : count keys[p] keys = 1
+  · have := uniq_single keys p _ hk h1
+    rw [hp] at this; cases this
+    exact Or.inr ⟨hk, h1⟩
+  · have := renamed_mem keys p hlt (by omega)
+    have he : (uniq keys)[p]'(by rw [uniq_length]; exact hlt) = x := by
+      have := List.getElem?_eq_getElem (l := uniq keys) (i := p) (by rw [uniq_length]; exact hlt)
+      rw [hp] at this; exact (Option.some.inj this).symm
+    rw [he] at this
+    exact Or.inl this
+
 theorem mem_uniq_cases (keys : List String) (x : String) (hx : x ∈ uniq keys) :
     x ∈ renamed keys ∨ (∃ p : Nat, keys[p]? = some x ∧ count x keys = 1) := by
   obtain ⟨p, hp⟩ := List.mem_iff_getElem?.mp hx
